@@ -69,6 +69,7 @@ package table
 //@   ensures  #err_kind: result == nil || result == ErrHKeyNotFound
 //@   ensures  #gone: !t.has(hkey)
 //@   ensures  #others: forall h uint64 :: h != hkey ==> (t.has(h) == old(t.has(h)) && t.off(h) == old(t.off(h)))
+//@   ensures  #every_other_index_entry: forall m map[uint64]uint64, h uint64 {h in m} :: (m != t.hkeys || h != hkey) ==> ((h in m) == old(h in m) && m[h] == old(m[h]))
 //@   ensures  #acct [C20]: old(t.has(hkey)) ==> t.garbage == old(t.garbage) + old(t.size(hkey)) && t.inuse == old(t.inuse) - old(t.size(hkey))
 //@   ensures  #acct_absent [C20]: !old(t.has(hkey)) ==> t.garbage == old(t.garbage) && t.inuse == old(t.inuse)
 //@   ensures  #len: len(t.hkeys) == old(len(t.hkeys)) - ite(old(t.has(hkey)), 1, 0)
